@@ -290,6 +290,10 @@ RecConforms ==
 Latest(k) == hist[k][Len(hist[k])]
 \* C10: after flush() the independent reader finds exactly the live keys, a clear journal, and
 \* metadata counters equal to the live totals
+\* C10: every allocation-journal image the store WRITES decodes under the documented layout (the independent decoder
+\* checks state, entry count, image length and the checksum over exactly the blocks the entries occupy); torn images
+\* exist only in crash images, never as a complete write
+JournalImagesValid == (l > 1 /\ Rec[l - 1].e = "w" /\ Rec[l - 1].w.kind = "j") => ~Rec[l - 1].w.v.bad
 AtAckJournalClear == snap.on => ~JournalPick(dur.j).active /\ pend = <<>>
 AtAckLayout == snap.on => \A r \in {Rv(dur)} : r.ok /\ \A k \in Keys : r.win[k] = Latest(k)
 LiveBlocks == LET S == {i \in 1 .. Len(snap.recs) : TRUE} IN
